@@ -35,25 +35,25 @@ func (m WireMsg) Bytes() []byte {
 }
 
 type MsgPipe struct {
-	w          *W
-	mu         *sync.Mutex
-	cv         *sync.Cond
-	toPeer     []WireMsg
-	Log        []WireMsg
-	toSUT      [][]byte
-	closedSUT  bool
-	closedPeer bool
-	ClosedAt   time.Duration // when the SUT side closed
+	w            *W
+	mu           *sync.Mutex
+	cv           *sync.Cond
+	toPeer       []WireMsg
+	Log          []WireMsg
+	toSUT        [][]byte
+	closedSUT    bool
+	closedPeer   bool
+	ClosedAt     time.Duration // when the SUT side closed
 	PeerClosedAt time.Duration
-	SendCap    int
-	Name       string
-	Idx        int
-	OnSend     func(m WireMsg)
-	OnLost     func(m WireMsg)
-	LostLog    []WireMsg
-	OnClose    func()
-	addr       string
-	Delivered  int // messages the SUT has taken with Recv
+	SendCap      int
+	Name         string
+	Idx          int
+	OnSend       func(m WireMsg)
+	OnLost       func(m WireMsg)
+	LostLog      []WireMsg
+	OnClose      func()
+	addr         string
+	Delivered    int // messages the SUT has taken with Recv
 }
 
 type MsgEndpoint struct {
@@ -61,19 +61,19 @@ type MsgEndpoint struct {
 	listening bool
 	lclosed   bool
 	acceptQ   []*MsgPipe
-	Plan      []string               // dial outcomes for SUT-side dials ("ok","refuse")
-	OnPipe    func(p *MsgPipe)       // SUT dialled and got a pipe
-	OnDial    func(outcome string)   // every SUT dial attempt
+	Plan      []string             // dial outcomes for SUT-side dials ("ok","refuse")
+	OnPipe    func(p *MsgPipe)     // SUT dialled and got a pipe
+	OnDial    func(outcome string) // every SUT dial attempt
 	SendCap   int
 }
 
 type MsgNet struct {
-	w    *W
-	mu   sync.Mutex
-	cv   *sync.Cond
-	eps  map[string]*MsgEndpoint
-	n    int
-	All  []*MsgPipe
+	w   *W
+	mu  sync.Mutex
+	cv  *sync.Cond
+	eps map[string]*MsgEndpoint
+	n   int
+	All []*MsgPipe
 }
 
 var curMsgNet *MsgNet
@@ -337,7 +337,7 @@ func (d *msgDialer) Dial() (transport.Pipe, error) {
 	return p, nil
 }
 
-func (d *msgDialer) SetOption(string, interface{}) error       { return mangos.ErrBadOption }
+func (d *msgDialer) SetOption(string, interface{}) error   { return mangos.ErrBadOption }
 func (d *msgDialer) GetOption(string) (interface{}, error) { return nil, mangos.ErrBadOption }
 
 type msgListener struct {
@@ -401,8 +401,8 @@ func (l *msgListener) Close() error {
 	return nil
 }
 
-func (l *msgListener) Address() string                        { return "msg://" + l.addr }
-func (l *msgListener) SetOption(string, interface{}) error       { return mangos.ErrBadOption }
+func (l *msgListener) Address() string                       { return "msg://" + l.addr }
+func (l *msgListener) SetOption(string, interface{}) error   { return mangos.ErrBadOption }
 func (l *msgListener) GetOption(string) (interface{}, error) { return nil, mangos.ErrBadOption }
 
 func (msgTran) NewDialer(addr string, sock mangos.Socket) (transport.Dialer, error) {
